@@ -45,7 +45,7 @@ SEQ = {
 # concurrent properties: workload kinds for the scheduler harness and the failure classes of
 # hist.check_run that count for the property
 SCHED = {
-    "C01": dict(kinds=["point", "split", "reuse", "overwrite", "rmrace"], classes=["nullvalue", "linearizability", "status", "held"]),
+    "C01": dict(kinds=["point", "split", "reuse", "overwrite", "rmrace", "toprank"], classes=["nullvalue", "linearizability", "status", "held"]),
     "C04": dict(kinds=["scan", "split", "reuse", "scanedge"], classes=["nullvalue", "linearizability", "order", "status"]),
     "C06": dict(kinds=["nodeset", "scan", "scanedge"], classes=["nodeset"]),
     "C09": dict(kinds=["split", "point", "scan", "cursor", "collapse", "collapse", "collapse", "rmrace"], classes=["progress", "structure", "lockorder"], trace=True, monitor="vers", lockorder=True),
@@ -433,8 +433,8 @@ def sched_run(prop, tier, seed, replay_path=None):
         nruns = runs
         if kind == "reuse":
             pol, nruns = "pct", runs * 6      # a reader must be held back across two whole operations
-        if kind == "collapse":
-            nruns = runs * 4                  # one compare-exchange has to land inside another's load..CAS window
+        if kind in ("collapse", "toprank"):
+            nruns = runs * 4                  # one store has to land inside another thread's two-step window
         rc, out, err2 = schedeng.run_workload(binary, text, nruns, sd * 100, pol, trace=bool(spec.get("trace")))
         sched_analyse(spec, out, rc, err2, pre, res)
         return res
